@@ -295,6 +295,47 @@ func c08Server() *explore.Scenario {
 					}
 				}
 			}
+			// two timeout headers, one malformed and one well-formed, in both orders and key cases
+			// (a caller's own metadata may carry the key; goat's client appends its header after it):
+			// the malformed one is ignored, the well-formed one is honoured
+			for _, stream := range []bool{false, true} {
+				for _, bad := range []string{"soon", "", "-5S", "5s", "12", "S"} {
+					for _, badFirst := range []bool{true, false} {
+						for _, kpair := range [][2]string{{"grpc-timeout", "grpc-timeout"}, {"grpc-timeout", "GRPC-Timeout"}, {"Grpc-Timeout", "grpc-timeout"}} {
+							id++
+							tag := fmt.Sprintf("t%d", id)
+							var r *env.Rec
+							var rpc *env.Rpc
+							if stream {
+								r = w.Rec(tag, "Bidi")
+								w.Handlers[tag] = func(r *env.Rec, ss grpc.ServerStream) error { return nil }
+								rpc = env.ReqOpen(id, env.MBidi, tag)
+							} else {
+								r = w.Rec(tag, "Unary")
+								rpc = env.ReqUnary(id, tag, "x")
+							}
+							hb := &goatorepo.KeyValue{Key: kpair[0], Value: bad}
+							hg := &goatorepo.KeyValue{Key: kpair[1], Value: "250m"}
+							if badFirst {
+								rpc.Header.Headers = append(rpc.Header.Headers, hb, hg)
+							} else {
+								rpc.Header.Headers = append(rpc.Header.Headers, hg, hb)
+							}
+							now := time.Now()
+							d.Pipe.A.Inject(rpc)
+							vsched.Settle()
+							if r.HStarts != 1 {
+								vsched.Fail(fam+"|handler-not-run", "request with two timeout headers: handler ran %d times", r.HStarts)
+								continue
+							}
+							dl, has := r.HCtx.Deadline()
+							if !has || !dl.Equal(now.Add(250*time.Millisecond)) {
+								vsched.Fail(fam+"|valid-shadowed-by-malformed", "headers %s=%q and %s=250m (malformed first=%v, stream=%v): handler deadline present=%v, %v away; want 250ms (the malformed value is ignored, the well-formed one honoured)", kpair[0], bad, kpair[1], badFirst, stream, has, dl.Sub(now))
+							}
+						}
+					}
+				}
+			}
 			vsched.Obs("requests=%d", id)
 			vsched.Count("inputs", int64(id))
 		},
